@@ -6,6 +6,7 @@ import (
 	"io"
 	"net"
 	"sync"
+	"sync/atomic"
 	"time"
 
 	"github.com/netflix/rend/handlers"
@@ -28,6 +29,9 @@ type Listener struct {
 
 	mu sync.Mutex
 	b  *Backends
+	// FailL2: the next that many constructions of an L2 handler fail (L2 down or refusing at the
+	// moment a client connects)
+	FailL2 int32
 }
 
 type memListener struct{ ch chan net.Conn }
@@ -53,6 +57,10 @@ func Listen(cfg Config) *Listener {
 		if cfg.Orca == "l1only" {
 			return handlers.NilHandler()
 		}
+		if atomic.AddInt32(&l.FailL2, -1) >= 0 {
+			return nil, fmt.Errorf("dial L2: connection refused (injected)")
+		}
+		atomic.AddInt32(&l.FailL2, 1)
 		l.mu.Lock()
 		b := l.b
 		l.mu.Unlock()
